@@ -1,0 +1,156 @@
+//! Verification hooks (compiled only with `--cfg gm_rs_verif`). Additive: nothing in the
+//! library calls into this module unless the cfg is set, and with the cfg off it does not exist.
+use std::cell::RefCell;
+use std::collections::VecDeque;
+
+pub use crate::fields::fp12::Fp12;
+pub use crate::fields::fp2::Fp2;
+pub use crate::fields::fp4::Fp4;
+pub use crate::sm9_p256_table::SM9_P256_PRECOMPUTED;
+
+use crate::points::{Point, TwistPoint};
+use crate::u256::U256;
+
+#[derive(Clone, Copy, PartialEq, Eq, Debug)]
+pub enum RngMode {
+    Off,
+    Record,
+    Scripted,
+}
+
+#[derive(Clone, Debug, Default)]
+pub struct RngLog {
+    pub offered: Vec<[u8; 32]>,
+    pub accepted: Vec<U256>,
+}
+
+thread_local! {
+    static MODE: RefCell<RngMode> = RefCell::new(RngMode::Off);
+    static QUEUE: RefCell<VecDeque<[u8; 32]>> = RefCell::new(VecDeque::new());
+    static LOG: RefCell<RngLog> = RefCell::new(RngLog::default());
+}
+
+pub fn rng_set(mode: RngMode, queue: Vec<[u8; 32]>) {
+    MODE.with(|m| *m.borrow_mut() = mode);
+    QUEUE.with(|q| *q.borrow_mut() = queue.into_iter().collect());
+    LOG.with(|l| *l.borrow_mut() = RngLog::default());
+}
+
+pub fn rng_take_log() -> RngLog {
+    LOG.with(|l| std::mem::take(&mut *l.borrow_mut()))
+}
+
+pub fn rng_queue_len() -> usize {
+    QUEUE.with(|q| q.borrow().len())
+}
+
+pub fn rng_candidate(buf: &mut [u8; 32]) {
+    let mode = MODE.with(|m| *m.borrow());
+    match mode {
+        RngMode::Off => {}
+        RngMode::Record => LOG.with(|l| l.borrow_mut().offered.push(*buf)),
+        RngMode::Scripted => {
+            let next = QUEUE.with(|q| q.borrow_mut().pop_front());
+            match next {
+                Some(c) => {
+                    *buf = c;
+                    LOG.with(|l| l.borrow_mut().offered.push(c));
+                }
+                None => panic!("VERIF_RNG_EXHAUSTED"),
+            }
+        }
+    }
+}
+
+pub fn rng_accepted(v: &U256) {
+    let mode = MODE.with(|m| *m.borrow());
+    if mode != RngMode::Off {
+        LOG.with(|l| l.borrow_mut().accepted.push(*v));
+    }
+}
+
+pub fn fp2(c0: U256, c1: U256) -> Fp2 {
+    Fp2 { c0, c1 }
+}
+pub fn fp2_parts(a: &Fp2) -> [U256; 2] {
+    [a.c0, a.c1]
+}
+pub fn fp4(c0: Fp2, c1: Fp2) -> Fp4 {
+    Fp4 { c0, c1 }
+}
+pub fn fp4_parts(a: &Fp4) -> [Fp2; 2] {
+    [a.c0, a.c1]
+}
+pub fn fp12(c0: Fp4, c1: Fp4, c2: Fp4) -> Fp12 {
+    Fp12 { c0, c1, c2 }
+}
+pub fn fp12_parts(a: &Fp12) -> [Fp4; 3] {
+    [a.c0, a.c1, a.c2]
+}
+
+pub fn fp2_mul_fp(a: &Fp2, k: &U256) -> Fp2 {
+    a.fp_mul_fp(k)
+}
+pub fn fp2_div(a: &Fp2, b: &Fp2) -> Fp2 {
+    a.div(b)
+}
+pub fn fp2_conjugate(a: &Fp2) -> Fp2 {
+    a.conjugate()
+}
+pub fn fp2_a_mul_u(a: &Fp2) -> Fp2 {
+    a.a_mul_u()
+}
+pub fn fp2_mul_u(a: &Fp2, b: &Fp2) -> Fp2 {
+    a.fp_mul_u(b)
+}
+pub fn fp2_sqr_u(a: &Fp2) -> Fp2 {
+    a.sqr_u()
+}
+
+pub fn fp4_mul_fp(a: &Fp4, k: &U256) -> Fp4 {
+    a.fp_mul_fp(k)
+}
+pub fn fp4_mul_fp2(a: &Fp4, k: &Fp2) -> Fp4 {
+    a.fp_mul_fp2(k)
+}
+pub fn fp4_mul_v(a: &Fp4, b: &Fp4) -> Fp4 {
+    a.fp_mul_v(b)
+}
+pub fn fp4_a_mul_v(a: &Fp4) -> Fp4 {
+    a.a_mul_v()
+}
+pub fn fp4_conjugate(a: &Fp4) -> Fp4 {
+    a.conjugate()
+}
+pub fn fp4_sqr_v(a: &Fp4) -> Fp4 {
+    a.sqr_v()
+}
+
+pub fn fp12_line_mul(a: &Fp12, lw: &[Fp2; 3]) -> Fp12 {
+    a.fp_line_mul(lw)
+}
+pub fn fp12_frobenius2(a: &Fp12) -> Fp12 {
+    a.fp12_frobenius2()
+}
+pub fn fp12_frobenius6(a: &Fp12) -> Fp12 {
+    a.fp12_frobenius6()
+}
+pub fn fp12_final_exponent(a: &Fp12) -> Fp12 {
+    a.final_exponent()
+}
+pub fn fp12_pow(a: &Fp12, e: &U256) -> Fp12 {
+    a.pow(e)
+}
+
+pub fn pairing(q: &TwistPoint, p: &Point) -> Fp12 {
+    crate::points::sm9_u256_pairing(q, p)
+}
+pub fn twist_point_add_full(p1: &TwistPoint, p2: &TwistPoint) -> TwistPoint {
+    crate::points::twist_point_add_full(p1, p2)
+}
+pub fn point_from_bytes(b: &[u8]) -> Point {
+    Point::from_bytes(b)
+}
+pub fn twist_point(x: Fp2, y: Fp2, z: Fp2) -> TwistPoint {
+    TwistPoint { x, y, z }
+}
